@@ -314,6 +314,9 @@ pub struct W3Exec {
     pub stats: RunStats,
     pub stop: bool,
     pub sim_time: u64,
+    /// submissions since the last complete observation were tracked as expected state only (large batches)
+    pub sparse_dirty: bool,
+    n_free_cached: usize,
 }
 
 impl W3Exec {
@@ -343,6 +346,8 @@ impl W3Exec {
             stats: RunStats::default(),
             stop: false,
             sim_time: 0,
+            sparse_dirty: false,
+            n_free_cached: 0,
         };
         ex.prev = ex.observe().map_err(|v| v.actual)?;
         Ok(ex)
@@ -393,7 +398,32 @@ impl W3Exec {
     }
 
     fn n_free(&self) -> usize {
-        self.pending.iter().filter(|i| !i.is_new()).count()
+        self.n_free_cached
+    }
+
+    /// Large batches: between complete observations only the *expected* state is tracked (a new order appended with
+    /// status New, nothing else changed); the next complete observation is compared with it, so anything that became
+    /// visible in between is still reported - at the next checkpoint instead of at the very submission.
+    fn sparse_now(&self) -> bool {
+        !has(&self.cfg, w3mon::GRID) && self.pending.len() >= SPARSE_FROM && self.pending.len() % SPARSE_EVERY != 0
+    }
+
+    /// Complete observation after sparse submissions: must equal the tracked expected state.
+    fn sync(&mut self) -> Result<(), Violation> {
+        if !self.sparse_dirty {
+            return Ok(());
+        }
+        self.sparse_dirty = false;
+        let now = self.observe()?;
+        if has(&self.cfg, w3mon::INVISIBLE) {
+            let exp = std::mem::take(&mut self.prev);
+            let r = self.unchanged(&exp, &now, "one of the submissions since the last complete observation");
+            self.prev = now;
+            r?;
+        } else {
+            self.prev = now;
+        }
+        Ok(())
     }
 
     fn room(&self) -> bool {
@@ -447,6 +477,36 @@ impl W3Exec {
             Ok(r) => r,
             Err(msg) => return Err(self.viol("panic", "place_order", "no abort".into(), msg)),
         };
+        if self.sparse_now() {
+            // track the expected state only
+            let mut pre = pre;
+            if let Ok((ra, id)) = r {
+                if ra != a || id != pre[a].book.orders.len() {
+                    return Err(self.viol("visible-before-step", &format!("asset{}.new id", a), format!("({}, {})", a, pre[a].book.orders.len()), format!("({}, {})", ra, id)));
+                }
+                let t = pre[a].book.t;
+                let p = price.unwrap_or(if bid { PMAX } else { 0 });
+                pre[a].book.orders.push(OOrder { bid, status: NEW, arr: t, end: TMAX, vol, start_vol: vol, price: p, trader, id });
+                self.ids[a].push(id);
+                self.budget[a] += vol as u64;
+                self.pending.push(Instr::New { a, id });
+                for set in [&mut self.beliefs, &mut self.coll] {
+                    for b in set.iter_mut() {
+                        let _ = b[a].create(bid, vol, trader, price);
+                    }
+                }
+                if let Some(sh) = self.shadows.as_mut() {
+                    let s = &mut sh[a];
+                    let _ = guard(move || s.create(0, bid, vol, trader, price));
+                }
+            } else if price.map(|p| p % self.cfg.ticks[a] == 0).unwrap_or(true) {
+                return Err(self.viol("ongrid-rejected", &format!("asset{}.env.place_order({:?})", a, price), "Ok".into(), "Err".into()));
+            }
+            self.prev = pre;
+            self.sparse_dirty = true;
+            self.stats.probe("sparse_submission");
+            return self.check_queue_len();
+        }
         let post = self.observe()?;
         let on_grid = price.map(|p| p % self.cfg.ticks[a] == 0).unwrap_or(true);
         if !on_grid {
@@ -534,10 +594,17 @@ impl W3Exec {
         if let Err(msg) = r {
             return Err(self.viol("panic", "submission", "no abort".into(), msg));
         }
-        let post = self.observe()?;
-        if has(&self.cfg, w3mon::INVISIBLE) {
-            self.unchanged(&pre, &post, &format!("queuing {:?}", ins))?;
-        }
+        let post = if self.sparse_now() {
+            self.sparse_dirty = true;
+            self.stats.probe("sparse_submission");
+            pre
+        } else {
+            let post = self.observe()?;
+            if has(&self.cfg, w3mon::INVISIBLE) {
+                self.unchanged(&pre, &post, &format!("queuing {:?}", ins))?;
+            }
+            post
+        };
         if let Instr::Modify { a, v: Some(v), .. } = &ins {
             self.budget[*a] += *v as u64;
         }
@@ -547,6 +614,7 @@ impl W3Exec {
             }
         }
         self.pending.push(ins);
+        self.n_free_cached += 1;
         self.prev = post;
         self.check_queue_len()
     }
@@ -565,6 +633,7 @@ impl W3Exec {
     }
 
     fn toggle(&mut self, on: bool) -> Result<(), Violation> {
+        self.sync()?;
         let pre = std::mem::take(&mut self.prev);
         let r = {
             let env = &mut self.env;
@@ -609,6 +678,7 @@ impl W3Exec {
     }
 
     fn step(&mut self, perm: &Option<Vec<usize>>) -> Result<(), Violation> {
+        self.sync()?;
         let cfg = self.cfg.clone();
         let n = self.pending.len();
         let pre = std::mem::take(&mut self.prev);
@@ -637,6 +707,12 @@ impl W3Exec {
         }
         if n as u64 == cfg.step_size {
             self.stats.probe("batch_equals_step_size");
+        }
+        if n >= 128 {
+            self.stats.probe("large_batch_step");
+        }
+        if n > 4096 {
+            self.stats.probe("large_batch_step_over_4096");
         }
         if let Err(msg) = r {
             return Err(self.classify_step_panic(msg, &steered, start));
@@ -705,6 +781,7 @@ impl W3Exec {
         }
         let _ = leftover;
         self.pending.clear();
+        self.n_free_cached = 0;
         for o in &post_b {
             self.stats.state_digests.push(o.state_digest());
         }
@@ -1050,6 +1127,10 @@ pub fn execute(scn: &W3Scn) -> RunOutcome {
     }
     if v.is_none() {
         v = ex.run(&scn.ops);
+    }
+    if v.is_none() && !ex.stop {
+        // submissions at the end of a scenario that were only tracked as expected state
+        v = ex.sync().err();
     }
     let mut stats = std::mem::take(&mut ex.stats);
     stats.sim_time = ex.sim_time;
